@@ -178,14 +178,16 @@ def run(ck, models, tier):
                 resreg = "rax" if tm.arch == "x86_64" else "x0"
                 val = sim["regs"].get(resreg)
                 exp0 = r.boolval.get_bits()[0]
-                ok_val = isinstance(val, tuple) and val[0] == exp0 and all(b == 0 for b in val[1:8])
+                # the whole 32-bit result register is defined: bit 0 = the value, bits 1..31 = 0 (compilers test w0 / eax, not just the
+                # low byte, for a `zeroext i1` result; a MOVK or a byte move would leave the caller's first argument in the upper bits)
+                ok_val = isinstance(val, tuple) and val[0] == exp0 and all(b == 0 for b in val[1:32])
                 t = sim["transfer"]
                 ok_ret = t is not None and t["kind"] == "ret" and (tm.arch == "x86_64" or t.get("reg") == "x30")
                 wr = set(sim["written"])
                 ok_regs = wr <= {resreg} and not sim.get("stack") and not sim.get("calls")
                 ck.ob("R10.3", "%s/%s/stub/value" % (tm.arch, rn), tm.target, ok_val,
-                      "stub %s leaves %s low byte = %s; expected bit 0 = the requested value, bits 1..7 = 0" % (
-                          mn, resreg, fmt(from_bits(tuple(val[:8])), 3) if isinstance(val, tuple) else "unset"), where(r.ev))
+                      "stub %s leaves %s[0..32] = %s; expected bit 0 = the requested value, bits 1..31 = 0" % (
+                          mn, resreg, fmt(from_bits(tuple(val[:32])), 3) if isinstance(val, tuple) else "unset"), where(r.ev))
                 ck.ob("R10.3", "%s/%s/stub/returns" % (tm.arch, rn), tm.target, ok_ret, "stub ends with %s" % (t["kind"] if t else "no control transfer"), where(r.ev))
                 ck.ob("R10.3", "%s/%s/stub/nothing-else" % (tm.arch, rn), tm.target, ok_regs,
                       "registers written: %s; stack effect: %s" % (sorted(wr), bool(sim.get("stack"))), where(r.ev))
